@@ -177,6 +177,31 @@ ErrLoop(name) == <<"<ERR:loop:", name, ">">>
 ErrLua(fn) == <<"<ERR:lua:", fn, ">">>
 ErrTimeout(fn) == <<"<ERR:timeout:", fn, ">">>
 
+(* ================= C13 repeated calls: hook policies ==================== *)
+\* What template_fn / post_template_fn answer may depend on the calls made so far in
+\* this expand() (the hooks are arbitrary callables): the number of earlier calls of the
+\* same hook is part of the threaded state (st.hooks), so a policy is a function of
+\* (policy name, template name, ordinal of this call).  o.tfn: "none" | "observe" (always
+\* None) | "marker" (always a marker) | "first" (marker for the 1st call of the expand(),
+\* None afterwards) | "later" (None for the 1st call, marker afterwards) | "num" (a marker
+\* carrying the ordinal).  o.pfn: "none" | "observe" | "replace" | "number" (the default
+\* expansion followed by "#k", k the ordinal of the post_template_fn call).
+HookCount(st, h) == Cardinality({i \in 1..Len(st.hooks) : st.hooks[i].hook = h})
+NoAnswer == [some |-> FALSE, t |-> <<>>]
+\* st: the state in which the call has already been recorded
+TfnAnswer(pol, name, st) ==
+  LET mark == [some |-> TRUE, t |-> <<"<MARK:", name, ">">>] IN
+  CASE pol = "marker" -> mark
+    [] pol = "first" -> (IF HookCount(st, "template_fn") = 1 THEN mark ELSE NoAnswer)
+    [] pol = "later" -> (IF HookCount(st, "template_fn") > 1 THEN mark ELSE NoAnswer)
+    [] pol = "num" -> [some |-> TRUE, t |-> <<"<MARK:", name, "#" \o ToString(HookCount(st, "template_fn")), ">">>]
+    [] OTHER -> NoAnswer
+PfnAnswer(pol, name, t1, st) ==
+  CASE pol = "replace" -> <<"<POST:", name, ">">>
+    [] pol = "number" -> t1 \o <<"#" \o ToString(HookCount(st, "post_template_fn"))>>
+    [] OTHER -> t1
+(* ================= end of C13 repeated calls ============================ *)
+
 (* ---------------- the evaluator ---------------------------------------- *)
 \* X = [lib, need, o, Dev, enwikt]  (fixed during one expand() call)
 RECURSIVE Exp(_, _, _, _, _), ExpItem(_, _, _, _, _), ExpArgsUnexp(_, _, _, _, _, _), ExpJoin(_, _, _, _, _, _),
@@ -317,8 +342,8 @@ ExpItem(it0, f, ea, st0, X) ==
                    THEN Hook(Pop(Push(ba.st, Lbl("TEMPLATE_FN"))),
                              [hook |-> "template_fn", name |-> it.name, args |-> ba.b, t |-> <<>>])
                    ELSE ba.st
-             marker == X.o.tfn = "marker"
-             body == IF marker THEN R(<<"<MARK:", it.name, ">">>, s3)
+             ans == TfnAnswer(X.o.tfn, it.name, s3)        \* (C13 repeated calls: the answer of this call)
+             body == IF ans.some THEN R(ans.t, s3)
                      ELSE IF Target(it.name, X.lib) = ""
                      THEN R(<<"[[:Template:", it.name, "]]">>, s3)
                      ELSE LET b == PassOver(IncludablePart(X.lib[Target(it.name, X.lib)]), X)   \* expand_args(encoded_body, ht)
@@ -329,7 +354,7 @@ ExpItem(it0, f, ea, st0, X) ==
              s4 == IF X.o.pfn # "none" /\ t1 # <<>>
                    THEN Hook(body.st, [hook |-> "post_template_fn", name |-> it.name, args |-> ba.b, t |-> t1])
                    ELSE body.st
-             t2 == IF X.o.pfn = "replace" /\ t1 # <<>> THEN <<"<POST:", it.name, ">">> ELSE t1
+             t2 == IF t1 # <<>> THEN PfnAnswer(X.o.pfn, it.name, t1, s4) ELSE t1   \* (C13 repeated calls)
          IN R(t2, Pop(s4))
     (* ---- parser functions -------------------------------------------------- *)
     \* the first argument is part of the cookie's first field ("#if:cond"), which is
